@@ -1727,7 +1727,7 @@ def summary(fn: ast.FunctionDef, ctx: ModCtx, cls: str | None):
 # ---------------------------------------------------------------------------------------------------------------------
 # large functions: structure-preserving comparison with semantic leaves
 
-SMALL_NODES = 120
+SMALL_NODES = 200
 
 
 def _assigned_names(stmts) -> list[str]:
@@ -1747,6 +1747,14 @@ def _has_loop_or_try(st) -> bool:
     return any(isinstance(n, (ast.For, ast.While, ast.Try, ast.With, ast.FunctionDef, ast.Lambda)) for n in ast.walk(st))
 
 
+def _groupable(st) -> bool:
+    if isinstance(st, (ast.FunctionDef, ast.AsyncFunctionDef, ast.ClassDef)):
+        return False
+    if isinstance(st, ast.If):
+        return _size(st) <= SMALL_NODES and not _has_loop_or_try(st)
+    return not _has_loop_or_try(st) and not isinstance(st, (ast.For, ast.While, ast.Try, ast.With))
+
+
 def chunked(stmts: list[ast.stmt], ctx: ModCtx, cls: str | None, live_after: set[str], local_defs: dict, loop_counter: list):
     """canonical form of a statement list that keeps its top-level structure: runs of small statements are summarised
     semantically (symbolic inputs, the variables still needed afterwards as outputs), large compound statements are
@@ -1760,11 +1768,11 @@ def chunked(stmts: list[ast.stmt], ctx: ModCtx, cls: str | None, live_after: set
             local_defs[st.name] = st
             i += 1
             continue
-        if _size(st) <= SMALL_NODES and not _has_loop_or_try(st):
-            j, sz = i, 0
-            while j < n and not isinstance(stmts[j], ast.FunctionDef) and _size(stmts[j]) <= SMALL_NODES and not _has_loop_or_try(stmts[j]) \
-                    and sz + _size(stmts[j]) <= 2 * SMALL_NODES:
-                sz += _size(stmts[j])
+        if _groupable(st):
+            # a maximal run of simple statements and small ifs: the run boundaries depend on the compound statements only,
+            # so both versions of a function are cut at the same places
+            j = i
+            while j < n and _groupable(stmts[j]):
                 j += 1
             group = stmts[i:j]
             later = _loads(stmts[j:]) | live_after
@@ -1831,6 +1839,20 @@ def chunk_summary(fn: ast.FunctionDef, ctx: ModCtx, cls: str | None, alpha: bool
     sig = (tuple(pos), tuple(sorted((k, pr.s(v)) for k, v in defaults.items())), vararg, kwarg, tuple(kwonly),
            tuple(sorted(core.dotted(d) or core.un(d) for d in fn.decorator_list)))
     return sig, chunked(body, ctx, cls, set(), {}, [0])
+
+
+def leaves_of(m: "core.Mod", qual: str) -> list[tuple[dict[str, bool], list[tuple]]]:
+    """readable canonical leaves of a function of module `m` (as the rules see it): [(conditions, outcome items)] with
+    conditions {atom text: truth} and items such as ('exit', 'return', text), ('exitarg', name, text), ('store', attr, text),
+    ('effect', i, text).  Rules stated on leaves do not depend on how the branches are written."""
+    fn = m.func(qual)
+    cls = qual.split(".")[0] if "." in qual else None
+    ctx = ModCtx(m.tree, core.REPO)
+    sig, leaves = summary(fn, ctx, cls)
+    out = []
+    for conds, items in leaves:
+        out.append(({detok(k, 10): v for k, v in conds}, [tuple(detok(x, 10) if isinstance(x, str) else x for x in it) for it in items]))
+    return out
 
 
 def _strip_positions(fn: ast.AST) -> str:
@@ -2019,6 +2041,8 @@ def hybridise(tree: ast.Module, text: str, rel: str) -> ast.Module:
             stats["identical"].append(q)
             continue
         try:
+            if max(_size(node), _size(rnode)) > 1800:
+                raise Giveup("large function: compared piecewise")
             sa = summary(node, ctx_a, cls)
             sr = summary(rnode, ctx_r, rcls)
         except (Giveup, RecursionError, KeyError, AttributeError, TypeError, ValueError, IndexError) as e:
